@@ -8,13 +8,13 @@
    [view_sorted] = list(view) ascending by key_of (descending when reversed); [notif] = what the signals of a
    call say about the change of the shown set; [guarded G ops init] = every call of the history satisfies G.
 
-   Two findings make the full statement false for the unchanged code (each has _refuted + _partial):
-   - marked-only-ignored-by-add-update: add/update test only the filter, not show_marked.
-     [marked_ok] is exactly the complement: no add of a new, matching, unmarked flow and no update of a stored,
-     matching, unmarked flow while marked-only mode is on.
+   The model describes view.py WITH fixes/C43-marked-only-add-update.diff applied (finding
+   marked-only-ignored-by-add-update, kind fixed: add/update tested only the filter, not show_marked);
+   with it the exactness statement holds at full strength (C43_exact).
+   One finding remains and makes the ordering statement false for the code (_refuted + _partial):
    - stale-order-key: a cached sort key is refreshed only for the current order and only while the flow is shown.
      [fresh_ok] is exactly the complement: no update leaves a cached key that differs from the flow's key
-     (for another order, or while the flow is hidden / stops matching). *)
+     (for another order, or while the flow is hidden / stops being shown). *)
 From Coq Require Import List Bool NArith Permutation Sorted.
 From MV Require Import Base.Bytes Model.View Proofs.ViewSpec Proofs.ViewOps Proofs.ViewMain.
 Import ListNotations.
@@ -36,18 +36,12 @@ Theorem C43_view_bounds : forall ops s, run ops init = Ok s ->
 Proof. exact view_bounds. Qed.
 Print Assumptions C43_view_bounds.
 
-(* FINDING marked-only-ignored-by-add-update: a history after which a stored flow is listed although it is
-   not wanted (marked-only mode is on and the flow is not marked). *)
-Theorem C43_exact_refuted : exists ops s id, run ops init = Ok s
-  /\ In id (visible s) /\ In id (store s) /\ wanted s id = false.
-Proof. exact marked_refuted. Qed.
-Print Assumptions C43_exact_refuted.
-
-(* Outside that finding the view lists exactly the wanted stored flows, each once. *)
-Theorem C43_exact_partial : forall ops s, guarded marked_ok ops init -> run ops init = Ok s ->
+(* The view lists exactly the stored flows that match the filter and, in marked-only mode, are marked,
+   each once (full strength, no guard). *)
+Theorem C43_exact : forall ops s, run ops init = Ok s ->
   Permutation (visible s) (filter (wanted s) (store s)).
-Proof. exact view_exact_partial. Qed.
-Print Assumptions C43_exact_partial.
+Proof. exact view_exact. Qed.
+Print Assumptions C43_exact.
 
 (* FINDING stale-order-key: a history (size order, back to time order, the first flow shrinks, size order
    again) after which flow a is listed before flow b although b has the smaller current key. *)
@@ -84,10 +78,10 @@ Theorem C43_signals : forall ops s o s', run ops init = Ok s -> step o s = Ok s'
 Proof. exact signals_match. Qed.
 Print Assumptions C43_signals.
 
-(* The guards are satisfiable on a non-trivial history (two marked flows, size order, marked-only mode, the
-   shown flow 0 shrinks and is re-sorted, reversed): both partial theorems apply to it. *)
+(* The guard is satisfiable on a non-trivial history (two marked flows, size order, marked-only mode, the
+   shown flow 0 shrinks and is re-sorted, reversed): the partial theorem applies to it. *)
 Theorem C43_nonvacuous : exists s, run hist_good init = Ok s
-  /\ guarded marked_ok hist_good init /\ guarded fresh_ok hist_good init
+  /\ guarded fresh_ok hist_good init
   /\ visible s = [1%N; 0%N] /\ show_marked s = true /\ focus s = Some 0%N.
 Proof. exact good_history. Qed.
 Print Assumptions C43_nonvacuous.
